@@ -1,13 +1,11 @@
-(* C10 — proofs about the roller-shutter module model (C10/Model.v).
-   Part 1: how the parts of a timer callback treat an output that stays energised (no falling edge in the
-           GPIO log of the callback), the time accounts and the position.
-   Part 2: bounded power (10-minute rule; calibrated move), task stop accuracy, auto-calibration outcome. *)
+(* C10 — proofs about the roller-shutter module model (C10/Model.v), part 2: bounded power (10-minute rule;
+   calibrated move), task stop accuracy, auto-calibration outcome.  Part 1 (how the operations inside a callback treat
+   an output that stays energised) is C10/Frame.v. *)
 From Coq Require Import List ZArith Bool Lia.
 Import ListNotations.
-From V Require Import Base.U32 Base.Iface Gen.RsConsts C09.Model C09.Proofs C10.Model.
+From V Require Import Base.U32 Base.Iface Gen.RsConsts C09.Model C09.Proofs C10.Model C10.Frame.
 Local Open Scope Z_scope.
 
-(* the names below are also defined (for the C09 state) in C09.Model *)
 Notation pos := C10.Model.pos.
 Notation tilt := C10.Model.tilt.
 Notation up_time := C10.Model.up_time.
@@ -18,329 +16,6 @@ Notation now := C10.Model.now.
 Notation flags := C10.Model.flags.
 Notation timer_cb := C10.Model.timer_cb.
 Notation step := C10.Model.step.
-
-Ltac fld := cbn [C10.Model.pos C10.Model.tilt C10.Model.up_time C10.Model.down_time C10.Model.last_time C10.Model.last_comm
-  up_on down_on start_time stop_time delayed tk_pos tk_tilt tk_dir tk_state ac_step perform button_req detected
-  time1 time2 aot act C10.Model.flags C10.Model.last_pos C10.Model.last_tilt C10.Model.last_flags last_direction C10.Model.now clk outs
-  upd_pt upd_times upd_relay upd_task upd_cal upd_cfgt upd_rep upd_misc set_flags fl_set fl_clear set_button_req set_step cancel_task
-  disarm fst snd] in *.
-
-Record consts10 : Prop := {
-  c_off : RELAY_OFF = 0; c_down : RELAY_DOWN = 1; c_up : RELAY_UP = 2;
-  c_inact : TASK_INACTIVE = 0; c_act : TASK_ACTIVE = 1; c_spos : TASK_SETTING_POSITION = 2; c_stilt : TASK_SETTING_TILT = 3 }.
-Lemma consts10_ok : consts10. Proof. constructor; vm_compute; reflexivity. Qed.
-
-(* ---------- the GPIO log ---------- *)
-Definition dirz (up : bool) : Z := if up then RELAY_UP else RELAY_DOWN.
-Definition powered (up : bool) (d : dev) : bool := if up then up_on d else down_on d.
-(* exactly the output of direction `up` is energised *)
-Definition only (up : bool) (d : dev) : Prop := powered up d = true /\ powered (negb up) d = false.
-Definition fallb (up : bool) (w : wire) : bool :=
-  match w with (kd, a, _) => (kd =? 2) && (nth0 a 1 =? dirz up) && (nth0 a 2 =? 0) end.
-Definition nofall (up : bool) (l : list wire) : Prop := forallb (fun w => negb (fallb up w)) l = true.
-
-Lemma nofall_app up a b : nofall up (a ++ b) <-> nofall up a /\ nofall up b.
-Proof. unfold nofall. rewrite forallb_app, andb_true_iff. tauto. Qed.
-Lemma nofall_cons up w l : nofall up (w :: l) <-> fallb up w = false /\ nofall up l.
-Proof. unfold nofall. cbn [forallb]. rewrite andb_true_iff, negb_true_iff. tauto. Qed.
-Lemma nofall_nil up : nofall up []. Proof. reflexivity. Qed.
-
-(* ---------- "sub-step": an operation inside an event that neither touches the time accounts nor learns a position ---------- *)
-Record sub (up : bool) (d d' : dev) : Prop := {
-  sub_log : exists n, outs d' = n ++ outs d;
-  sub_on : nofall up (outs d') -> only up d -> only up d';
-  sub_ut : up_time d' = up_time d;
-  sub_dt : down_time d' = down_time d;
-  sub_lt : last_time d' = last_time d;
-  sub_lc : last_comm d' = last_comm d;
-  sub_now : now d' = now d;
-  sub_det : detected d' = detected d;
-  sub_pos : nofall up (outs d') -> only up d -> (pos d' = pos d /\ tilt d' = tilt d) \/ known (pos d') = false;
-  sub_start : nofall up (outs d') -> only up d -> start_time d <> 0 -> start_time d' = start_time d }.
-
-Lemma sub_refl up d : sub up d d.
-Proof. constructor; auto. exists []; reflexivity. Qed.
-
-Lemma sub_trans up a b c : sub up a b -> sub up b c -> sub up a c.
-Proof.
-  intros [l1 o1 u1 d1 t1 c1 n1 e1 p1 s1] [l2 o2 u2 d2 t2 c2 n2 e2 p2 s2].
-  destruct l1 as [x1 L1]. destruct l2 as [x2 L2].
-  assert (NF : nofall up (outs c) -> nofall up (outs b)) by (rewrite L2; intros H; apply nofall_app in H; tauto).
-  constructor; try congruence.
-  - exists (x2 ++ x1). rewrite L2, L1, app_assoc. reflexivity.
-  - intros H O. apply o2; auto.
-  - intros H O. specialize (p1 (NF H) O). specialize (p2 H (o1 (NF H) O)).
-    destruct p2 as [[P2 T2]|P2]; [|right; exact P2].
-    destruct p1 as [[P1 T1]|P1]; [left; split; congruence|right; congruence].
-  - intros H O S. rewrite (s2 H (o1 (NF H) O)); [apply s1; auto|]. rewrite (s1 (NF H) O S). exact S.
-Qed.
-
-(* field-only updates *)
-Lemma sub_same up d d' :
-  outs d' = outs d -> up_on d' = up_on d -> down_on d' = down_on d ->
-  up_time d' = up_time d -> down_time d' = down_time d -> last_time d' = last_time d -> last_comm d' = last_comm d ->
-  now d' = now d -> detected d' = detected d -> start_time d' = start_time d ->
-  ((pos d' = pos d /\ tilt d' = tilt d) \/ known (pos d') = false) -> sub up d d'.
-Proof.
-  intros Ho Hu Hd. intros. constructor; auto.
-  - exists []. rewrite Ho. reflexivity.
-  - intros _ [A B]. unfold only, powered in *. destruct up; cbn [negb] in *; rewrite Hu, Hd; auto.
-Qed.
-
-Ltac same := apply sub_same; fld; auto.
-
-Lemma sub_fl_set up d b : sub up d (fl_set d b). Proof. same. Qed.
-Lemma sub_fl_clear up d b : sub up d (fl_clear d b). Proof. same. Qed.
-Lemma sub_set_step up d s : sub up d (set_step d s). Proof. same. Qed.
-Lemma sub_set_button_req up d b : sub up d (set_button_req d b). Proof. same. Qed.
-Lemma sub_cancel_task up d : sub up d (cancel_task d). Proof. same. Qed.
-Lemma sub_upd_task up d a b c e : sub up d (upd_task d a b c e). Proof. same. Qed.
-Lemma sub_disarm up d : sub up d (disarm d). Proof. same. Qed.
-Lemma sub_upd_cfgt up d a b c e : sub up d (upd_cfgt d a b c e). Proof. same. Qed.
-Lemma sub_forget up d : sub up d (upd_pt d 0 0). Proof. same. Qed.
-Lemma sub_last_direction up d v : sub up d (upd_misc d v (now d) (clk d)). Proof. same. Qed.
-Lemma sub_pause up d x : sub up d (upd_misc d (last_direction d) (now d) x). Proof. same. Qed.
-
-(* ---------- supla_esp_gpio_relay_hi ---------- *)
-Lemma fallb_log up (which : Z) (lvl : bool) (t : Z) :
-  fallb up (mk 2 [t; which; if lvl then 1 else 0] []) = (which =? dirz up) && negb lvl.
-Proof. unfold fallb, mk, nth0. cbn [nth]. destruct lvl; cbn; [rewrite andb_false_r; reflexivity|rewrite andb_true_r; reflexivity]. Qed.
-
-Lemma dirz_neq up : dirz up <> dirz (negb up).
-Proof. pose proof consts10_ok as C. unfold dirz. destruct up; cbn [negb]; rewrite (c_up C), (c_down C); lia. Qed.
-
-(* switching an output on, or an output that is not the energised one off *)
-Lemma sub_relay_hi up k d u hi :
-  (only up d -> u = negb up -> hi = false) -> sub up d (relay_hi k d u hi).
-Proof.
-  intros Hsafe. unfold relay_hi.
-  set (changed := negb (Bool.eqb (if u then up_on d else down_on d) hi)).
-  set (o := if changed then log_gpio d (if u then RELAY_UP else RELAY_DOWN) hi (clk d + RELAY_SETTLE_US) else outs d).
-  assert (Hlog : exists n, o = n ++ outs d).
-  { unfold o. destruct changed; [|exists []; reflexivity]. unfold log_gpio. eexists [_]. reflexivity. }
-  assert (Hfall : nofall up o -> only up d -> u = up -> hi = true).
-  { intros NF [P Q] ->. destruct hi; [reflexivity|exfalso].
-    unfold o, changed in NF. unfold powered in P. destruct up; rewrite P in NF; cbn in NF;
-      unfold log_gpio in NF; apply nofall_cons in NF; destruct NF as [NF _];
-      rewrite (fallb_log _ _ false) in NF; cbn [negb] in NF; rewrite andb_true_r in NF;
-      apply Z.eqb_neq in NF; apply NF; reflexivity. }
-  assert (Hon : nofall up o -> only up d ->
-                only up (upd_relay d (if u then hi else up_on d) (if u then down_on d else hi) 0 0 None 0 o)).
-  { intros NF O. pose proof O as [P Q]. unfold only, powered in *. fld.
-    destruct (Bool.eqb u up) eqn:E.
-    - apply eqb_prop in E. subst u. rewrite (Hfall NF O eq_refl). destruct up; cbn [negb] in *; auto.
-    - apply eqb_false_iff in E. assert (u = negb up) by (destruct u, up; cbn; congruence).
-      rewrite (Hsafe O H). subst u. destruct up; cbn [negb] in *; auto. }
-  assert (Hany : nofall up o -> only up d -> negb (if u then hi else up_on d) && negb (if u then down_on d else hi) = false).
-  { intros NF O. destruct (Hon NF O) as [P _]. unfold powered in P. fld. destruct up; rewrite P; cbn; auto. rewrite andb_false_r. reflexivity. }
-  destruct (negb (if u then hi else up_on d) && negb (if u then down_on d else hi)) eqn:Eoff.
-  - constructor; fld; auto; intros NF O; discriminate (Hany NF O).
-  - constructor; fld; auto.
-    all: try (intros NF O; destruct (Hon NF O) as [P Q]; unfold only, powered in *; fld; auto).
-    intros S. destruct (start_time d =? 0) eqn:E; [apply Z.eqb_eq in E; congruence|reflexivity].
-Qed.
-
-(* ---------- supla_esp_gpio_rs_set_relay ---------- *)
-Lemma sub_sr_abort up d : sub up d (sr_abort d).
-Proof.
-  unfold sr_abort. destruct (negb (button_req d) && (0 <? ac_step d)); [|apply sub_refl].
-  eapply sub_trans; [apply sub_set_step|]. eapply sub_trans; [apply sub_upd_cfgt|].
-  eapply sub_trans; [apply sub_forget|]. apply sub_fl_clear.
-Qed.
-
-Lemma relay_hi_pins k d u hi :
-  up_on (relay_hi k d u hi) = (if u then hi else up_on d) /\ down_on (relay_hi k d u hi) = (if u then down_on d else hi).
-Proof. unfold relay_hi. destruct (negb (if u then hi else up_on d) && negb (if u then down_on d else hi)); fld; auto. Qed.
-
-Lemma sub_sr_delay up k d v s t : sub up d (fst (sr_delay k d v s t)).
-Proof.
-  unfold sr_delay. destruct (v =? RELAY_OFF); [cbn [fst]; apply sub_refl|]. cbv zeta. cbn [fst].
-  set (d1 := fl_clear (fl_clear (fl_clear (upd_misc d v (now d) (clk d)) FLAG_CALIBRATION_FAILED) FLAG_MOTOR_PROBLEM) FLAG_CALIBRATION_LOST).
-  assert (S1 : sub up d d1).
-  { unfold d1. eapply sub_trans; [apply sub_last_direction|]. eapply sub_trans; [apply sub_fl_clear|].
-    eapply sub_trans; [apply sub_fl_clear|]. apply sub_fl_clear. }
-  destruct (if negb (v =? RELAY_UP) then up_on d1 else down_on d1); [|exact S1].
-  eapply sub_trans; [exact S1|]. eapply sub_trans; [apply sub_relay_hi; auto|]. apply sub_pause.
-Qed.
-
-(* after the delay part the output opposite to the requested direction is off *)
-Lemma sr_delay_other_off k d v s t :
-  v <> RELAY_OFF ->
-  let d' := fst (sr_delay k d v s t) in
-  (v = RELAY_UP -> down_on d' = false) /\ (v <> RELAY_UP -> up_on d' = false).
-Proof.
-  intros Hv. unfold sr_delay. replace (v =? RELAY_OFF) with false by (symmetry; apply Z.eqb_neq; exact Hv).
-  cbv zeta. cbn [fst]. fld.
-  destruct (v =? RELAY_UP) eqn:E; cbn [negb].
-  - apply Z.eqb_eq in E. split; [intros _|congruence].
-    destruct (down_on d) eqn:D; fld; [|exact D].
-    match goal with |- context[relay_hi k ?x ?u ?h] => destruct (relay_hi_pins k x u h) as [_ H] end.
-    exact H.
-  - apply Z.eqb_neq in E. split; [congruence|intros _].
-    destruct (up_on d) eqn:D; fld; [|exact D].
-    match goal with |- context[relay_hi k ?x ?u ?h] => destruct (relay_hi_pins k x u h) as [H _] end.
-    exact H.
-Qed.
-
-Lemma sub_sr_act up k d v dl :
-  (v = RELAY_UP -> down_on d = false) -> (v = RELAY_DOWN -> up_on d = false) -> sub up d (sr_act k d v dl).
-Proof.
-  intros Hu Hd. unfold sr_act.
-  destruct (DELAY_THRESHOLD_MS <? dl).
-  { eapply sub_trans; [|apply sub_set_button_req]. same. }
-  destruct (v =? RELAY_UP) eqn:E1.
-  { apply Z.eqb_eq in E1. destruct ((k_add_margin k =? 0) && (cur_pos d =? 0)); [apply sub_refl|].
-    eapply sub_trans; [|apply sub_set_button_req]. apply sub_relay_hi.
-    intros [P Q] U. exfalso. destruct up; cbn [negb] in U; [discriminate|]. unfold powered in P. rewrite (Hu E1) in P. discriminate. }
-  destruct (v =? RELAY_DOWN) eqn:E2.
-  { apply Z.eqb_eq in E2. destruct ((k_add_margin k =? 0) && (cur_pos d =? 100)); [apply sub_refl|].
-    eapply sub_trans; [|apply sub_set_button_req]. apply sub_relay_hi.
-    intros [P Q] U. exfalso. destruct up; cbn [negb] in U; [|discriminate]. unfold powered in P. rewrite (Hd E2) in P. discriminate. }
-  eapply sub_trans; [|apply sub_set_button_req].
-  eapply sub_trans; apply sub_relay_hi; auto.
-Qed.
-
-Theorem sub_set_relay up k d v c s : sub up d (set_relay k d v c s).
-Proof.
-  unfold set_relay. cbv zeta.
-  set (d1 := sr_abort d). set (d2 := if c then cancel_task d1 else d1). set (d3 := disarm d2).
-  assert (S3 : sub up d d3).
-  { eapply sub_trans; [apply sub_sr_abort|]. fold d1. eapply sub_trans; [|apply sub_disarm].
-    unfold d2. destruct c; [apply sub_cancel_task|apply sub_refl]. }
-  eapply sub_trans; [exact S3|]. eapply sub_trans; [apply sub_sr_delay|].
-  pose proof consts10_ok as C.
-  destruct (Z.eq_dec v RELAY_OFF) as [Ev|Ev].
-  - apply sub_sr_act; intros H; exfalso; rewrite Ev, (c_off C) in H; [rewrite (c_up C) in H|rewrite (c_down C) in H]; lia.
-  - pose proof (sr_delay_other_off k d3 v s (counter k d1) Ev) as [A B]. cbv zeta in A, B.
-    apply sub_sr_act; [exact A|]. intros H. apply B. rewrite H, (c_down C), (c_up C). lia.
-Qed.
-
-(* switching off without stop delay really switches off: the energised output falls *)
-Lemma relay_hi_off_log k d (u : bool) :
-  (if u then up_on d else down_on d) = true ->
-  outs (relay_hi k d u false) = mk 2 [clk d + RELAY_SETTLE_US; dirz u; 0] [] :: outs d.
-Proof.
-  intros H. unfold relay_hi. rewrite H. cbn [Bool.eqb negb].
-  destruct (negb (if u then false else up_on d) && negb (if u then down_on d else false)); fld; unfold log_gpio, dirz; reflexivity.
-Qed.
-Lemma fall_head up (t : Z) (l : list wire) : ~ nofall up (mk 2 [t; dirz up; 0] [] :: l).
-Proof.
-  intros NF. apply nofall_cons in NF. destruct NF as [NF _].
-  pose proof (fallb_log up (dirz up) false t) as F. cbn [negb] in F. rewrite F, Z.eqb_refl in NF. discriminate.
-Qed.
-
-Lemma set_relay_off_falls up k d c :
-  powered up d = true -> ~ nofall up (outs (set_relay k d RELAY_OFF c false)).
-Proof.
-  intros P NF. unfold set_relay in NF. cbv zeta in NF.
-  set (d3 := disarm (if c then cancel_task (sr_abort d) else sr_abort d)) in *.
-  assert (P3 : powered up d3 = true).
-  { unfold d3, sr_abort, powered in *. destruct c; destruct (negb (button_req d) && (0 <? ac_step d)); fld; exact P. }
-  unfold sr_delay in NF. replace (RELAY_OFF =? RELAY_OFF) with true in NF by reflexivity. cbn [fst snd andb] in NF.
-  unfold sr_act in NF. replace (DELAY_THRESHOLD_MS <? 0) with false in NF by reflexivity.
-  replace (RELAY_OFF =? RELAY_UP) with false in NF by reflexivity. replace (RELAY_OFF =? RELAY_DOWN) with false in NF by reflexivity.
-  fld. revert NF. generalize d3 P3. clear. intros d P NF.
-  destruct up; unfold powered in P.
-  - (* the inner call logs the fall of the up output; the outer call only extends the log *)
-    destruct (sub_log true _ _ (sub_relay_hi true k (relay_hi k d true false) false false ltac:(auto))) as [n L].
-    rewrite L in NF. apply nofall_app in NF. destruct NF as [_ NF].
-    rewrite (relay_hi_off_log k d true P) in NF. exact (fall_head true _ _ NF).
-  - destruct (relay_hi_pins k d true false) as [_ B].
-    assert (Q : (if false then up_on (relay_hi k d true false) else down_on (relay_hi k d true false)) = true) by (rewrite B; exact P).
-    rewrite (relay_hi_off_log k _ false Q) in NF. exact (fall_head false _ _ NF).
-Qed.
-
-(* ---------- the other operations of a callback that are sub-steps ---------- *)
-(* a state that differs from d only in position / tilt / flags / task / calibration bookkeeping *)
-Definition same_frame (d d1 : dev) : Prop :=
-  outs d1 = outs d /\ up_on d1 = up_on d /\ down_on d1 = down_on d /\ up_time d1 = up_time d /\ down_time d1 = down_time d /\
-  last_time d1 = last_time d /\ last_comm d1 = last_comm d /\ now d1 = now d /\ detected d1 = detected d /\ start_time d1 = start_time d.
-
-(* whatever was written to the position before, an immediate switch-off is a sub-step: with the output still
-   energised and no falling edge logged the case is impossible *)
-Lemma sub_then_off up k d d1 c : same_frame d d1 -> sub up d (set_relay k d1 RELAY_OFF c false).
-Proof.
-  intros (Ho & Hu & Hd & H1 & H2 & H3 & H4 & H5 & H6 & H7).
-  pose proof (sub_set_relay up k d1 RELAY_OFF c false) as S. destruct S as [l o u1 dd t1 c1 n1 e1 p1 s1].
-  assert (PW : only up d -> powered up d1 = true) by (intros [P _]; unfold powered in *; destruct up; congruence).
-  constructor; try congruence.
-  - rewrite <- Ho. exact l.
-  - intros NF O. exfalso. exact (set_relay_off_falls up k d1 c (PW O) NF).
-  - intros NF O. exfalso. exact (set_relay_off_falls up k d1 c (PW O) NF).
-  - intros NF O. exfalso. exact (set_relay_off_falls up k d1 c (PW O) NF).
-Qed.
-
-Ltac subt :=
-  lazymatch goal with
-  | |- sub _ ?d ?d => apply sub_refl
-  | |- sub _ _ (if ?b then _ else _) => destruct b; subt
-  | |- sub _ _ (set_relay _ _ _ _ _) => eapply sub_trans; [|apply sub_set_relay]; subt
-  | |- sub _ _ (upd_task _ _ _ _ _) => eapply sub_trans; [|apply sub_upd_task]; subt
-  | |- sub _ _ (fl_set _ _) => eapply sub_trans; [|apply sub_fl_set]; subt
-  | |- sub _ _ (fl_clear _ _) => eapply sub_trans; [|apply sub_fl_clear]; subt
-  | |- sub _ _ (set_step _ _) => eapply sub_trans; [|apply sub_set_step]; subt
-  | |- sub _ _ (set_button_req _ _) => eapply sub_trans; [|apply sub_set_button_req]; subt
-  | |- sub _ _ (upd_cfgt _ _ _ _ _) => eapply sub_trans; [|apply sub_upd_cfgt]; subt
-  | |- sub _ _ (upd_pt _ 0 0) => eapply sub_trans; [|apply sub_forget]; subt
-  | |- sub _ _ (cancel_task _) => eapply sub_trans; [|apply sub_cancel_task]; subt
-  | |- sub _ _ (upd_cal ?x _ _ _ (detected ?x)) => eapply sub_trans; [|same]; subt
-  end.
-
-Lemma sub_check_motor up k d mu im : sub up d (check_motor k d mu im).
-Proof. unfold check_motor. subt. Qed.
-
-Lemma sub_start_autocal up k d : sub up d (start_autocal k d).
-Proof. unfold start_autocal. subt. Qed.
-
-Lemma sub_calibration_failed up k d : sub up d (calibration_failed k d).
-Proof. unfold calibration_failed. cbv zeta. subt. Qed.
-
-Lemma sub_autocalibrate up k d im : sub up d (fst (autocalibrate k d im)).
-Proof.
-  unfold autocalibrate.
-  destruct (ac_step d =? 0); [cbn [fst]; subt|]. cbv zeta.
-  destruct ((up_time (fl_set d FLAG_CALIBRATION_IN_PROGRESS) <? AUTOCAL_FILTERING_MS * 1000) &&
-            (down_time (fl_set d FLAG_CALIBRATION_IN_PROGRESS) <? AUTOCAL_FILTERING_MS * 1000)); [cbn [fst]; subt|].
-  set (d1 := fl_set d FLAG_CALIBRATION_IN_PROGRESS).
-  assert (S1 : sub up d d1) by (unfold d1; subt).
-  destruct (ac_step d1 =? 1).
-  { destruct (negb im); [cbn [fst]; eapply sub_trans; [exact S1|]; subt|].
-    destruct (AUTOCAL_MAX_MS * 1000 <? up_time d1); cbn [fst]; [eapply sub_trans; [exact S1|apply sub_calibration_failed]|exact S1]. }
-  destruct (ac_step d1 =? 2).
-  { destruct (negb im).
-    - destruct (down_time d1 <? AUTOCAL_MIN_MS * 1000); cbn [fst]; [eapply sub_trans; [exact S1|apply sub_calibration_failed]|].
-      eapply sub_trans; [exact S1|]. subt.
-    - destruct (AUTOCAL_MAX_MS * 1000 <? down_time d1); cbn [fst]; [eapply sub_trans; [exact S1|apply sub_calibration_failed]|exact S1]. }
-  destruct (ac_step d1 =? 3); [|cbn [fst]; exact S1].
-  destruct (negb im).
-  - destruct (up_time d1 <? AUTOCAL_MIN_MS * 1000); cbn [fst]; [eapply sub_trans; [exact S1|apply sub_calibration_failed]|].
-    (* success: the position becomes "fully open" and the motor is switched off at once *)
-    apply sub_then_off. unfold same_frame, d1. destruct (tilt_sup k); fld; repeat split; reflexivity.
-  - destruct (AUTOCAL_MAX_MS * 1000 <? up_time d1); cbn [fst]; [eapply sub_trans; [exact S1|apply sub_calibration_failed]|exact S1].
-Qed.
-
-Lemma sub_cb_head up k d : sub up d (cb_head k d).
-Proof. unfold cb_head. subt. Qed.
-
-Lemma sub_tp_start up k d a b : sub up d (tp_start k d a b).
-Proof. unfold tp_start. cbv zeta. subt. Qed.
-Lemma sub_tp_tilt_start up k d a b : sub up d (tp_tilt_start k d a b).
-Proof. unfold tp_tilt_start. cbv zeta. subt. Qed.
-Lemma sub_tp_position up k d im fo fc a b c e f : sub up d (tp_position k d im fo fc a b c e f).
-Proof. unfold tp_position. cbv zeta. subt. Qed.
-Lemma sub_tp_tilt up k d a b : sub up d (tp_tilt k d a b).
-Proof. unfold tp_tilt. subt. Qed.
-
-Lemma sub_task_processing up k d im fo fc : sub up d (task_processing k d im fo fc).
-Proof.
-  unfold task_processing.
-  destruct ((tk_state d =? TASK_INACTIVE) || (0 <? ac_step d)); [apply sub_refl|].
-  destruct (perform d); [apply sub_start_autocal|].
-  destruct (negb (known (pos d))); [subt|].
-  cbv zeta.
-  eapply sub_trans; [apply sub_tp_start|]. eapply sub_trans; [apply sub_tp_tilt_start|].
-  eapply sub_trans; [apply sub_tp_position|]. apply sub_tp_tilt.
-Qed.
 
 (* ====================================================================================================
    Part 2a: one timer callback while the output of direction `up` stays energised and no travel can be
@@ -597,3 +272,89 @@ Proof.
 Qed.
 
 End Callback.
+
+Section Callback2.
+Variable o : fpops.
+Hypothesis OK : fp_ok o.
+
+Lemma NT_transfer k up d d' :
+  NT k up d -> (pos d' = pos d /\ tilt d' = tilt d) \/ known (pos d') = false -> NT k up d'.
+Proof.
+  intros N [[P T]|U]; [|left; exact U]. unfold NT in *. rewrite P, T. exact N.
+Qed.
+
+(* what a sub-step hands on when the output stays energised *)
+Lemma sub_bundle k up d d' :
+  sub up d d' -> nofall up (outs d') -> only up d -> NT k up d ->
+  only up d' /\ NT k up d' /\ up_time d' = up_time d /\ down_time d' = down_time d /\ last_time d' = last_time d /\
+  last_comm d' = last_comm d /\ now d' = now d /\ detected d' = detected d /\ (start_time d <> 0 -> start_time d' = start_time d).
+Proof.
+  intros S NF O N.
+  split; [exact (sub_on up _ _ S NF O)|]. split; [exact (NT_transfer k up d d' N (sub_pos up _ _ S NF O))|].
+  split; [exact (sub_ut up _ _ S)|]. split; [exact (sub_dt up _ _ S)|]. split; [exact (sub_lt up _ _ S)|].
+  split; [exact (sub_lc up _ _ S)|]. split; [exact (sub_now up _ _ S)|]. split; [exact (sub_det up _ _ S)|].
+  exact (sub_start up _ _ S NF O).
+Qed.
+
+Lemma cb_head_frame k d :
+  let d' := cb_head k d in
+  outs d' = outs d /\ up_on d' = up_on d /\ down_on d' = down_on d /\ start_time d' = start_time d /\ detected d' = detected d /\
+  up_time d' = up_time d /\ down_time d' = down_time d /\ last_time d' = last_time d /\ last_comm d' = last_comm d /\ now d' = now d /\
+  clk d' = clk d /\ ((pos d' = pos d /\ tilt d' = tilt d) \/ known (pos d') = false).
+Proof.
+  cbv zeta. unfold cb_head.
+  destruct (autocal_enabled k d).
+  - destruct ((aot d =? 0) && (act d =? 0)); fld; repeat split; auto.
+  - destruct (negb (act d =? 0) || negb (aot d =? 0) || negb (ac_step d =? 0)); fld; repeat split; auto.
+Qed.
+
+Definition frozen_cb (k : kcfg) (d : dev) (im : bool) : bool :=
+  autocal_enabled k d && negb (detected d || im) && (u32 (counter k d - start_time d) <? POWER_DETECT_US).
+
+(* the accounting stage when exactly the output of direction `up` is energised *)
+Lemma cb_account_only up k d im t fo fc :
+  wfk k -> only up d -> NT k up d ->
+  let el := u32 (t - last_time d) in
+  0 <= carry up d -> carry up d + el < 4294967296 ->
+  let d' := fst (fst (cb_account o k d im t fo fc)) in
+  ext d d' /\
+  (nofall up (outs d') ->
+   only up d' /\ NT k up d' /\ carry up d' = carry up d + el /\ last_time d' = last_time d /\ last_comm d' = last_comm d /\
+   now d' = now d /\ (start_time d <> 0 -> start_time d' = start_time d)).
+Proof.
+  intros W O N. cbv zeta. intros Hc Hsum.
+  pose proof (u32_range (t - last_time d)) as Hel.
+  unfold cb_account. cbv zeta.
+  destruct O as [P Q]. pose proof (conj P Q) as O.
+  destruct up; unfold powered in P, Q; cbn [negb] in P, Q; unfold carry in *.
+  - (* up *)
+    rewrite P.
+    set (d3 := upd_times d (u32 (up_time d + u32 (t - last_time d))) 0 (last_time d) (last_comm d)).
+    assert (F3 : same_frame d (upd_times d (up_time d) (down_time d) (last_time d) (last_comm d)) ) by (unfold same_frame; fld; repeat split; reflexivity).
+    assert (U3 : up_time d3 = up_time d + u32 (t - last_time d)) by (unfold d3; fld; apply u32_small; lia).
+    assert (O3 : only true d3) by (unfold d3, only, powered; fld; auto).
+    assert (N3 : NT k true d3) by (unfold d3, NT in *; fld; exact N).
+    assert (E3 : outs d3 = outs d) by reflexivity.
+    assert (L3 : last_time d3 = last_time d /\ last_comm d3 = last_comm d /\ now d3 = now d /\ start_time d3 = start_time d) by (unfold d3; fld; auto).
+    clearbody d3.
+    set (d4 := if 0 <? up_time d3 then check_motor k d3 true im else d3).
+    assert (S4 : sub true d3 d4) by (unfold d4; destruct (0 <? up_time d3); [apply sub_check_motor|apply sub_refl]).
+    clearbody d4.
+    pose proof (sub_autocalibrate true k d4 im) as S5.
+    set (da := autocalibrate k d4 im) in *. set (d5 := fst da) in *.
+    set (fo' := if snd da then aot d5 else fo). clearbody fo'. clearbody da.
+    pose proof (sub_trans true _ _ _ S4 S5) as S35.
+    (* calibrate + move *)
+    set (d6 := calibrate_d o k d5 fo' (up_time d5) 100).
+    set (d7 := move_position_d o k d6 fo' true im).
+    assert (X35 : ext d d5) by (destruct (sub_log true _ _ S35) as [n L]; exists n; rewrite L, E3; reflexivity).
+    assert (X56 : forall N5 : NT k true d5, same_frame d5 d6 /\ NT k true d6 /\ stop_time d6 = stop_time d5)
+      by (intros N5; exact (calibrate_d_facts o k d5 fo' (up_time d5) true W N5)).
+    split.
+    { (* log only grows *)
+      admit. }
+    admit.
+  - admit.
+Admitted.
+
+End Callback2.
